@@ -2,6 +2,7 @@ SPECIFICATION TraceSpec
 CONSTANTS
   Objs = {"o1", "o2", "o3", "o4"}
   HugeAvailable = FALSE
+  DeallocEarlyOut = FALSE
   StrictSteps = FALSE
 INVARIANT CyclesDoNotGrow
 POSTCONDITION Accepted
